@@ -295,9 +295,9 @@ pub fn prefix_sweep<'a, T: Ty<'a>>(ctx: &Ctx, b: &'a [u8], n: usize) -> String {
     let points: Vec<usize> = if len <= ctx.sweep_cap {
         (0..=len).collect()
     } else {
-        // sampled: dense at both ends, sparse in the middle
+        // sampled: dense at both ends, sparse in the middle (sparser for very long inputs)
         let mut p: Vec<usize> = (0..=64).collect();
-        let step = (len / 48).max(1);
+        let step = (len / if len > 200_000 { 8 } else { 48 }).max(1);
         let mut x = 64;
         while x < len {
             p.push(x);
